@@ -4,6 +4,7 @@ package main
 // weights-JSON part of C13. Encodings are described in lean/Driver/OpsPTN.lean.
 
 import (
+	"os"
 	"bytes"
 	"encoding/hex"
 	"encoding/json"
@@ -243,6 +244,21 @@ func init() {
 	}
 	opTable["ptnparse"] = func(s *Session, a []string) string {
 		p, err := ptn.ParsePTN(bytes.NewReader(hexDec(a[0])))
+		if err != nil {
+			return "err"
+		}
+		return "ok " + fmtPTN(p)
+	}
+	// ptnfile: the same bytes through ptn.ParseFile (a file on disk), the entry point the command-line tools use
+	opTable["ptnfile"] = func(s *Session, a []string) string {
+		f, err := os.CreateTemp("", "verif-ptn-*.ptn")
+		if err != nil {
+			return "tmp-err"
+		}
+		defer os.Remove(f.Name())
+		f.Write(hexDec(a[0]))
+		f.Close()
+		p, err := ptn.ParseFile(f.Name())
 		if err != nil {
 			return "err"
 		}
